@@ -190,21 +190,65 @@ func (ex *Exec) rangeNext(x *ssa.Next) Value {
 func (ex *Exec) doGo(x *ssa.Go) {
 	c := x.Common()
 	name := calleeName(c)
-	ex.fireAnchors("go", name, nil, nil, x.Pos())
+	var args []Value
+	for _, a := range c.Args {
+		args = append(args, ex.val(a))
+	}
+	// the goroutine's precondition must hold when it is started
+	if !c.IsInvoke() {
+		if fv, ok := ex.val(c.Value).(FuncV); ok && fv.Fn != nil {
+			if fc := ex.findContract(fv.Fn); fc != nil && !fc.Inline {
+				ex.checkSpawnPre(fc, fv, args, x.Pos())
+			}
+		}
+	}
+	ex.fireAnchorsCall("go", name, c, args, nil, x.Pos())
+}
+
+func (ex *Exec) checkSpawnPre(fc *FuncContract, fv FuncV, args []Value, pos token.Pos) {
+	f := fv.Fn
+	env := &Env{vars: map[string]TV{}, pkg: pkgOfFn(f), old: ex.st}
+	for i, p := range f.Params {
+		if i < len(args) {
+			env.vars[p.Name()] = TV{args[i], p.Type()}
+		}
+	}
+	for i, p := range f.FreeVars {
+		if i < len(fv.Free) {
+			if ptr, ok := fv.Free[i].(PtrV); ok {
+				env.vars[p.Name()] = TV{ex.load(ptr), p.Type().(*types.Pointer).Elem()}
+			}
+		}
+	}
+	key := contractKey(f)
+	// a new goroutine holds no locks: its own held(...) flags are all false
+	spawnSt := ex.st.clone()
+	hs := ArrSort(SInt, SBool)
+	ex.heapGet("ghost<held>", hs)
+	spawnSt.heap["ghost<held>"] = Term{fmt.Sprintf("((as const %s) false)", hs), hs}
+	for i, r := range fc.Requires {
+		g := ex.evalBool(r.E, spawnSt, env)
+		ex.vc.Oblige("pre", fmt.Sprintf("go %s/%s", key, clauseName(r, i)), ex.st.pc, g, ex.posString(pos))
+	}
+	ex.calleesUsed[key] = true
 }
 
 func (ex *Exec) doSend(x *ssa.Send) {
-	ex.fireAnchors("send", chanName(x.Chan), nil, nil, x.Pos())
+	ex.yield()
+	ex.fireAnchors("send", chanName(x.Chan), []Value{ex.val(x.X)}, nil, x.Pos())
 }
 
 func (ex *Exec) doRecv(x *ssa.UnOp) Value {
 	et := x.X.Type().Underlying().(*types.Chan).Elem()
-	ex.fireAnchors("recv", chanName(x.X), nil, nil, x.Pos())
+	ex.yield()
 	v := ex.freshValue("recv", et, ex.st.pc)
 	if x.CommaOk {
 		ok := ex.vc.Fresh("recv.ok", SBool)
-		return TupleV{v, Sc{ok}}
+		res := TupleV{v, Sc{ok}}
+		ex.fireAnchors("recv", chanName(x.X), nil, res, x.Pos())
+		return res
 	}
+	ex.fireAnchors("recv", chanName(x.X), nil, v, x.Pos())
 	return v
 }
 
@@ -222,16 +266,27 @@ func (ex *Exec) doSelect(x *ssa.Select) Value {
 		kind = "select-nonblocking"
 	}
 	ex.selectIdx[x] = idx
+	ex.yield()
 	ex.fireAnchors(kind, "", nil, nil, x.Pos())
+	if !x.Blocking {
+		save := ex.st.pc
+		ex.st.pc = ex.vc.Define("pc", And(save, Eq(idx, I(-1))))
+		ex.eventGuard = Eq(idx, I(-1))
+		ex.fireAnchors("select-default", "", nil, nil, x.Pos())
+		ex.eventGuard = Term{}
+		ex.st.pc = save
+	}
 	// per-case events are fired under the condition idx == i
 	for i, s := range x.States {
 		save := ex.st.pc
 		ex.st.pc = ex.vc.Define("pc", And(save, Eq(idx, I(int64(i)))))
+		ex.eventGuard = Eq(idx, I(int64(i)))
 		if s.Dir == types.SendOnly {
 			ex.fireAnchors("send", chanName(s.Chan), nil, nil, x.Pos())
 		} else {
 			ex.fireAnchors("recv", chanName(s.Chan), nil, nil, x.Pos())
 		}
+		ex.eventGuard = Term{}
 		ex.st.pc = save
 	}
 	out := TupleV{Sc{idx}, Sc{ex.vc.Fresh("select.recvok", SBool)}}
